@@ -368,6 +368,26 @@ class Evaluator:
         return cur.line()
 
 
+def cached_extract(ctx):
+    """extract_build, skipped when the extracted closure and the driver are byte-identical to the
+    ones the existing runner was built from (content hash stamp next to the runner)."""
+    import hashlib
+    h = hashlib.sha256()
+    for f in c.coq_closure("Run/ExtractWasm.v"):
+        h.update(f.encode())
+        h.update(open(os.path.join(c.COQ, f), "rb").read())
+    h.update(open(os.path.join(c.VERIF, "ocaml", "driver_wasm.ml"), "rb").read())
+    d = os.path.join(c.CACHE, "ocaml", "wasm")
+    stamp, runner = os.path.join(d, "stamp"), os.path.join(d, "runner")
+    if os.path.exists(runner) and os.path.exists(stamp) and open(stamp).read() == h.hexdigest():
+        ctx.notes["extraction"] = "runner reused (content hash of the model closure unchanged)"
+        return True, runner
+    ok, r = c.extract_build(ctx, "ExtractWasm.v", "driver_wasm.ml", "wasm")
+    if ok:
+        open(stamp, "w").write(h.hexdigest())
+    return ok, r
+
+
 def gen_shards(ctx, binp, n, shards):
     per = (n + shards - 1) // shards
 
@@ -446,15 +466,25 @@ def run(ctx):
         proof_broken = info
         ctx.log("proof obligations broken:", info.get("failed_file"), info.get("error", "")[-600:])
         c.coq_build(ctx, ["Wasm/Machine.vo", "Wasm/KnownClasses.vo", "Wasm/Opcodes.vo"])
-    ok, runner = c.extract_build(ctx, "ExtractWasm.v", "driver_wasm.ml", "wasm")
+    ctx.log("coq done")
+    ok, runner = cached_extract(ctx)
+    ctx.log("extraction done")
     if not ok:
         ctx.violation({"layer": "model extraction", "error": runner}, "the Wasm model no longer extracts/compiles", no_input=True)
         return
     ok, binp = c.cargo_build(ctx, "c01")
+    for _ in range(8):
+        # another harness crate of the shared workspace may be half-written at this moment
+        if ok or "failed to load manifest for workspace member" not in binp or "/harness/c01" in binp:
+            break
+        import time
+        time.sleep(10)
+        ok, binp = c.cargo_build(ctx, "c01")
     if not ok:
         ctx.violation({"layer": "harness build against /repo", "error": binp},
                       "harness no longer builds against the implementation", no_input=True)
         return
+    ctx.log("cargo done")
     ev = Evaluator(ctx, binp, runner, kf_ids)
     budget = [3]
     reported = 0
@@ -497,6 +527,7 @@ def run(ctx):
         wit.append(rec)
         report(ctx, ev, case, fs, budget)
     ctx.notes["corpus_witnesses"] = wit
+    ctx.log("corpus done")
 
     # ---- 2. generated programs
     n = 1500 if ctx.quick else 36000
@@ -512,6 +543,7 @@ def run(ctx):
     for h in hangs:
         ctx.violation({"program": h.get("prog"), "index": h.get("START")}, "implementation did not terminate on a generated (terminating) program")
     models = ev.run_model(cases)
+    ctx.log("models done")
     nviol = 0
     for case, m in zip(cases, models):
         fs = ev.evaluate(case, m)
